@@ -40,7 +40,7 @@ def run(ctx, res):
             t = Lark(w['grammar'], parser='earley', priority='invert').parse(w['text'])
             if t.children[0].data != 'b':
                 res.violation('regression of fixed finding F16: ' + f['what'], w)
-    jobs, outs = forestlib.forest_stream(ctx, 5, {'c05'}, 1500, 20000, prio=True)
+    jobs, outs = forestlib.forest_stream(ctx, 5, {'c05'}, 3500, 25000, prio=True)
     # the choice function itself: every ambiguous symbol node of the real forests against the Lean `choose`
     from common import run_driver_parallel
     cn = [(rec['grammar'], run_['text'], run_['lexer'], c) for st_, rec in outs if st_ == 'ok' and 'runs' in rec for run_ in rec['runs'] for c in run_.get('choices', [])]
